@@ -28,6 +28,7 @@ type Node struct {
 	SpentBy  map[wire.OutPoint]int // outpoints spent by a confirmed transaction
 	Mempool  map[int]bool
 	Dead     map[int]bool // disconnected coinbases and everything depending on them
+	Orphaned []*Blk       // disconnected blocks (the chain may flip back to them)
 	forks    uint32
 }
 
@@ -132,7 +133,13 @@ func (n *Node) Forget(i int) {
 // Connect appends a block at the given height with the given transactions
 // (already validated by the caller via CanInclude).
 func (n *Node) Connect(height int32, txs []int, t time.Time) *Blk {
-	b := &Blk{Height: height, Hash: n.blockHash(height), Time: t, Txs: txs}
+	return n.ConnectBlk(&Blk{Height: height, Hash: n.blockHash(height), Time: t, Txs: txs})
+}
+
+// ConnectBlk connects a given block (used to flip back to a block that was
+// disconnected earlier: same hash, same transactions).
+func (n *Node) ConnectBlk(b *Blk) *Blk {
+	height, txs := b.Height, b.Txs
 	n.Tip = height
 	if len(txs) == 0 {
 		return b
@@ -215,6 +222,7 @@ func (n *Node) Disconnect(h int32) {
 		}
 	}
 	n.Blocks = keep
+	n.Orphaned = append(n.Orphaned, gone...)
 	for _, b := range gone {
 		for _, i := range b.Txs {
 			delete(n.ConfIn, i)
@@ -257,4 +265,57 @@ func (n *Node) HighestBlock() int32 {
 		return -1
 	}
 	return n.Blocks[len(n.Blocks)-1].Height
+}
+
+// CanIncludeIgnoringDead is CanInclude for re-connecting an orphaned block: a
+// transaction that died with its coinbase becomes valid again when that very
+// coinbase is re-connected earlier in the same block or chain.
+func (b *BlockBuilder) CanIncludeIgnoringDead(i int) bool {
+	if b.In[i] {
+		return false
+	}
+	was := b.n.Dead[i]
+	delete(b.n.Dead, i)
+	ok := b.n.validAt(i, b.Height, b.In, b.Spent)
+	if was {
+		b.n.Dead[i] = true
+	}
+	return ok
+}
+
+// Reconnect connects an orphaned block again; its transactions (and what
+// depends on them) are no longer dead.
+func (n *Node) Reconnect(b *Blk) *Blk {
+	keep := n.Orphaned[:0]
+	for _, o := range n.Orphaned {
+		if o != b {
+			keep = append(keep, o)
+		}
+	}
+	n.Orphaned = keep
+	for _, i := range b.Txs {
+		n.revive(i)
+	}
+	return n.ConnectBlk(b)
+}
+
+func (n *Node) revive(i int) {
+	if !n.Dead[i] {
+		return
+	}
+	// a transaction is dead while any coinbase ancestor is disconnected;
+	// recompute conservatively: revive i, then descendants whose other
+	// ancestors are alive
+	delete(n.Dead, i)
+	for _, c := range n.U.Children(i) {
+		alive := true
+		for _, in := range n.U.Specs[c].Ins {
+			if in.Parent >= 0 && in.Parent != i && n.Dead[in.Parent] {
+				alive = false
+			}
+		}
+		if alive {
+			n.revive(c)
+		}
+	}
 }
